@@ -19,6 +19,10 @@ def run(ctx):
             what = ("cascade replica %s re-pointed %s -> %s while replicating=%s with own transactions %s, new source has %s "
                     "(scenario %s)" % (row["host"], row["oldsrc"], row["newsrc"], row["wasreplicating"], row["execself"][-3:],
                                        row["execnew"][-3:], row["scn"]))
+        elif row["kind"] == "cascveto":
+            sig = {"kind": "cascveto"}
+            what = ("%d automatic failover(s) filed for a master whose server is fine while every HA replica replicates: the "
+                    "unreachable cascade replica was counted as an HA node (scenario %s)" % (row["failoversfiled"], row["scn"]))
         else:
             sig = {"kind": "count"}
             what = "list %s / promoted %s contain a cascade replica (scenario %s)" % (row["listed"], row["promoted"], row["scn"])
